@@ -48,7 +48,12 @@ MULH(i8, 8, 1) MULH(i16, 16, 1)
 /* native-only (translator validation) for the wide multiplications decided by Engine I */
 MULH(i32, 32, 1) MULH(i64, 64, 1) MULH(u32, 32, 0) MULH(usz, 64, 0)
 /* wide multiplication with one operand an enumerated constant (-DMULC=..., one harness instance per constant), the other symbolic */
-#ifdef MULC
+/* defaults keep h_mulc_* in the native harness table (built without instance defines); every registered instance passes both */
+#ifndef MULC
+#define MULC 3
+#define MULC_SWAP 0
+#endif
+#if 1
 #define MULCH(T, n, sg) \
 void h_mulc_##T(void) { u64 a = vf_nd64(), b = (u64)(long long)(MULC); u64 out = 0; s128 x = as_t(a, n, sg), y = as_t(b, n, sg), e = x * y; \
   KF_MUL(e, n, sg); \
